@@ -14,6 +14,11 @@ from .common import cps
 SIG34 = list("^'s\"`~tLJKkX;:[]_Mm{}()/\\S$iNjZOlV")
 ALTDISP = set("xXiIjZyY")           # characters the grammar also reads as accidental-display suffix
 REST_SIGS = list(";()'{}")          # signifiers the grammar allows on rests (and on notes)
+# signifiers of more than one character (elided slurs, hidden tie start, inverted mordent, beam with staff change): one decoration each.
+# Opt-in (profile flag multi_sigs) so that the random streams of the fixed corpora do not change.  Not included on purpose: 'TT'
+# (read as two 'T'), '??' / 'yy' (runs merge: a repetition would be another signifier), 'xx' (also an accidental display suffix)
+MULTI_SIGS = ['&(', '&)', '&&(', '[y', 'Ww', 'L<', 'J>']
+MULTI_REST_SIGS = ['&(', '&)']
 BARTYPES = ['', '', '', '||', '|!', '|!:', '|:', '!|:', ':|!', '=:|!', ':|!|:', ':||:', ':!:', ':!!:', '=']
 CLEFS = ['*clefG2', '*clefF4', '*clefC3', '*clefC1', '*clefGv2', '*clefF3', '*clefC4', '*clefC2', '*clefG^2', '*clefFvv4']
 KEYSIGS = ['*k[]', '*k[f#]', '*k[b-e-]', '*k[f#c#g#]', '*kcancel', '*k[b-]X']
@@ -93,7 +98,7 @@ class DocGen:
     """Random documents of C01's grammar.  `p` holds the profile switches (see DEFAULT)."""
     DEFAULT = dict(
         types=TYPES, max_spines=4, max_rows=22, min_rows=3, max_paths=6,
-        sigs=True, max_sigs=4, accdisp=True, triple_acc=True, rational=True, grace=True, durless=True,
+        sigs=True, max_sigs=4, multi_sigs=False, accdisp=True, triple_acc=True, rational=True, grace=True, durless=True,
         chords='core',            # 'none' | 'core' (every note has a duration; union of signifiers writable) | 'explore'
         rests=True, rr=False, hidden_bars=False, bar_numbers=True, bar_tails=False,
         pre_comments=True, mid_comments=True, post_comments=True, fcoms=True,
@@ -153,7 +158,7 @@ class DocGen:
             d = self.duration()
         a = '' if no_acc else self.accidental()
         if pool is None:
-            pool = SIG34
+            pool = SIG34 + (MULTI_SIGS * 3 if p['multi_sigs'] else [])
         pool = [c for c in pool if not (a and c in ALTDISP)]
         k = 0
         if p['sigs'] and pool:
@@ -167,17 +172,18 @@ class DocGen:
             if not a and j == 3:
                 j = 2
             slots[j].append(s)
-        return mk_note(''.join(slots[0]), d, ''.join(slots[1]), self.pitch(), ''.join(slots[2]), a, ''.join(slots[3]))
+        return mk_note(slots[0], d, slots[1], self.pitch(), slots[2], a, slots[3])
 
     def rest(self, force_dur=False, pool=None):
         r, p = self.r, self.p
         d = self.duration()
         while force_dur and not d:
             d = self.duration()
-        pool = REST_SIGS if pool is None else [c for c in pool if c in REST_SIGS]
+        rs = REST_SIGS + (MULTI_REST_SIGS * 2 if p['multi_sigs'] else [])
+        pool = rs if pool is None else [c for c in pool if c in rs]
         sigs = [r.choice(pool) for _ in range(r.choice([0, 0, 1, 2]))] if p['sigs'] and pool else []
         k = r.randrange(len(sigs) + 1)
-        return mk_note(''.join(sigs[:k]), d, '', 'rr' if (p['rr'] and r.random() < 0.2) else 'r', '', '', ''.join(sigs[k:]), rest=True)
+        return mk_note(sigs[:k], d, '', 'rr' if (p['rr'] and r.random() < 0.2) else 'r', '', '', sigs[k:], rest=True)
 
     def chord(self):
         r, p = self.r, self.p
@@ -187,7 +193,7 @@ class DocGen:
             return chord_cell(ns)
         # core: every member has a duration, and the union of signifiers is writable on every member
         has_rest = p['rests'] and r.random() < 0.15
-        pool = REST_SIGS if has_rest else SIG34
+        pool = (REST_SIGS + (MULTI_REST_SIGS * 2 if p['multi_sigs'] else [])) if has_rest else (SIG34 + (MULTI_SIGS * 3 if p['multi_sigs'] else []))
         accs_ok = r.random() < 0.5      # either accidentals or display-suffix signifiers in the chord, not both
         if accs_ok:
             pool = [c for c in pool if c not in ALTDISP]
